@@ -28,7 +28,8 @@ func (l *Linter) lintAclDeclaration(decl *ast.AclDeclaration, ctx *context.Conte
 		}
 
 		// Otherwise, validate as CIDR
-		c += "/" + cidr.Mask.String()
+		// Use the mask value, String() would include the comments around it
+		c += "/" + fmt.Sprint(cidr.Mask.Value)
 		if _, _, err := net.ParseCIDR(c); err != nil {
 			l.Error(InvalidValue(cidr.GetMeta(), "CIDR", c).Match(ACL_SYNTAX))
 		}
